@@ -328,6 +328,97 @@ def rule_prevsym_commit(ctx):
         ctx.anchor_missing(rid, "the previous-symbol local (compared with 16 and 17, assigned from the symbol read) in parse_complex")
 
 
+def rule_hybrid_config(ctx):
+    """IntegerConfig::parse, evaluated from MIR against a scripted bit source, reads the format's HybridUintConfig layout"""
+    from .. import absint
+    rid = "R-HYBRID-CONFIG"
+    ctx.rule(rid, "jxl_coding::IntegerConfig::parse is evaluated from MIR (nothing is run) with Bitstream::read_bits replaced by a scripted "
+                  "source, for every log_alphabet_size in {5, 6, 7, 8, 15} x every split_exponent the field can hold x every msb_in_token "
+                  "x every lsb_in_token its field can hold, and compared with ISO/IEC 18181-1 C.2.3 (HybridUintConfig): "
+                  "split_exponent = u(ceil(log2(log_alphabet_size + 1))); msb_in_token = u(ceil(log2(split_exponent + 1))) and "
+                  "lsb_in_token = u(ceil(log2(split_exponent - msb_in_token + 1))) are present exactly when split_exponent != "
+                  "log_alphabet_size - also when it is larger; msb > split and msb + lsb > split are rejected.  Both the number and "
+                  "the widths of the reads and the resulting fields are compared: a field that is skipped leaves every later bit of "
+                  "the stream misaligned")
+    cr = ctx.prog.crate("jxl_coding")
+    fs = [g for g in cr.fn_list if g.path.endswith("IntegerConfig::parse") and g.kind == "AssocFn"]
+    adt = cr.adts.get("jxl_coding::IntegerConfig")
+    if len(fs) != 1 or fs[0].argc != 2 or adt is None:
+        ctx.anchor_missing(rid, "jxl_coding::IntegerConfig::parse(bitstream, log_alphabet_size)")
+        return
+    f = fs[0]
+    ctx.seen(f)
+    names = [x[0] for x in adt["variants"][0]["fields"]]
+    if not {"split_exponent", "msb_in_token", "lsb_in_token"} <= set(names):
+        ctx.anchor_missing(rid, "IntegerConfig { split_exponent, msb_in_token, lsb_in_token, .. }")
+        return
+
+    def clog(v):            # ceil(log2(v + 1))
+        return v.bit_length()
+
+    rows, bad, undec = 0, None, None
+    for las in (5, 6, 7, 8, 15):
+        for se in range(1 << clog(las)):
+            variants = [None]
+            if se != las:
+                variants = [(m, l) for m in range(1 << clog(se)) for l in (range(1 << clog(se - m)) if m <= se else [0])]
+            for ml in variants:
+                script, widths = [se], [clog(las)]
+                want = None
+                if ml is None:
+                    want = (se, 0, 0)
+                else:
+                    m, l = ml
+                    script.append(m)
+                    widths.append(clog(se))
+                    if m <= se:
+                        script.append(l)
+                        widths.append(clog(se - m))
+                        want = (se, m, l) if m + l <= se else None
+                log, it = [], iter(script)
+
+                def rb(args, log=log, it=it):
+                    n = args[1] if len(args) > 1 else None
+                    log.append(n)
+                    try:
+                        v = next(it)
+                    except StopIteration:
+                        return absint.Enum("core::result::Result", 0, "Ok", [0])
+                    return absint.Enum("core::result::Result", 0, "Ok", [v])
+                ev = absint.Evaluator(ctx.prog)
+                ev.intercept = {"Bitstream::<'_>::read_bits": rb, "Bitstream::read_bits": rb}
+                try:
+                    r = ev.call_fn(f, [absint.Ref(("ext", "bitstream")), las])
+                except absint.Unsupported as e:
+                    undec = "log_alphabet_size %d, split_exponent %d: %s" % (las, se, e)
+                    break
+                rows += 1
+                got = None
+                if isinstance(r, absint.Enum) and r.name == "Ok" and isinstance(r.fields[0], absint.Struct):
+                    d = dict(zip(names, r.fields[0].fields))
+                    got = (d["split_exponent"], d["msb_in_token"], d["lsb_in_token"])
+                elif not (isinstance(r, absint.Enum) and r.name == "Err"):
+                    undec = "log_alphabet_size %d, split_exponent %d: result %r" % (las, se, r)
+                    break
+                if (got != want or log != widths) and bad is None:
+                    bad = (las, se, ml, log, got, widths, want)
+            if undec:
+                break
+        if undec:
+            break
+    ctx.count(rid + ".rows", rows)
+    if undec:
+        ctx.bad(rid, "parse|not-evaluable", "IntegerConfig::parse is no longer a function the evaluator can decide (%s)" % undec, fn=f)
+        return
+    ctx.floor(rid + ".rows", 400)
+    if bad:
+        las, se, ml, log, got, widths, want = bad
+        ctx.bad(rid, "parse|layout", "log_alphabet_size %d, split_exponent %d%s: reads of widths %s give %s, the format reads widths %s and gives %s "
+                "(None = rejected)" % (las, se, "" if ml is None else ", msb_in_token %d, lsb_in_token %d" % ml, log, got, widths, want), fn=f)
+    else:
+        ctx.ok(rid, "parse|layout", "%d field combinations: read widths and fields equal the format's HybridUintConfig" % rows, nontrivial=True, fn=f)
+
+
 def main(pid, tier, repo=None):
     ctx = Ctx(pid, tier, configs=("workspace",), repo=repo)
     specconst.run(ctx, pid, floor=2)
@@ -337,6 +428,7 @@ def main(pid, tier, repo=None):
     rule_finalize(ctx)
     rule_symbol_refill(ctx)
     rule_prevsym_commit(ctx)
+    rule_hybrid_config(ctx)
     ctx.not_decided("that decoding returns exactly the encoded sequence and consumes exactly the encoded bits for every distribution set "
                     "(alias table construction, two-level prefix tables, hybrid-integer expansion, RLE / single-token shortcuts): value-level")
     return ctx.finish(
